@@ -1199,7 +1199,9 @@ void add_to_rstack_list(struct uftrace_rstack_list *list, struct uftrace_record 
 	if (rstack->more) {
 		memcpy(&node->args, args, sizeof(*args));
 		node->args.data = xmalloc(args->len);
-		memcpy(node->args.data, args->data, args->len);
+		/* a payload may be empty (e.g. a struct of size 0): no data to copy from */
+		if (args->len)
+			memcpy(node->args.data, args->data, args->len);
 	}
 
 	list_add_tail(&node->list, &list->read);
